@@ -190,17 +190,38 @@ func verifH_C05_select() {
 		q.WhereClause = sql.WhereClause{SearchCondition: c.ast(verifC05Cols)}
 	}
 	// select list
-	items := verifSelForms[selForm]
+	var items []verifSelItem
+	if selForm == 99 {
+		// a select list of nsel items, each chosen from a menu: the four columns and
+		// three comparison expressions over the integer columns (a = lit, b < lit, lit <= a)
+		menu := []verifSelItem{{0, ""}, {1, ""}, {2, ""}, {3, ""}, {-1, ""}, {-2, ""}, {-3, ""}}
+		for k := 0; k < verifParam("nsel", 2); k++ {
+			items = append(items, menu[verifChoice("selitem", len(menu))])
+		}
+	} else {
+		items = verifSelForms[selForm]
+	}
 	var exprLit int64
+	exprLits := map[int]int64{} // literal of the expression item at each select position
 	if items == nil {
 		q.SelectList = sql.SelectList{{ValueExpressionPrimary: sql.Asterisk{}}}
 	} else {
-		for _, it := range items {
+		for pos, it := range items {
 			dc := sql.DerivedColumn{AsClause: it.alias}
 			if it.col < 0 {
 				exprLit = int64(verifI32("exprlit"))
-				dc.ValueExpressionPrimary = sql.Predicate{ComparisonPredicate: sql.ComparisonPredicate{
-					LHS: sql.ColumnReference{ColumnName: "a"}, CompOp: sql.EQ, RHS: exprLit}}
+				exprLits[pos] = exprLit
+				switch it.col {
+				case -2:
+					dc.ValueExpressionPrimary = sql.Predicate{ComparisonPredicate: sql.ComparisonPredicate{
+						LHS: sql.ColumnReference{ColumnName: "b"}, CompOp: sql.LT, RHS: exprLit}}
+				case -3:
+					dc.ValueExpressionPrimary = sql.Predicate{ComparisonPredicate: sql.ComparisonPredicate{
+						LHS: exprLit, CompOp: sql.LTE, RHS: sql.ColumnReference{ColumnName: "a"}}}
+				default:
+					dc.ValueExpressionPrimary = sql.Predicate{ComparisonPredicate: sql.ComparisonPredicate{
+						LHS: sql.ColumnReference{ColumnName: "a"}, CompOp: sql.EQ, RHS: exprLit}}
+				}
 			} else {
 				dc.ValueExpressionPrimary = sql.ColumnReference{ColumnName: verifC05Cols[it.col]}
 			}
@@ -214,9 +235,17 @@ func verifH_C05_select() {
 			return row
 		}
 		var out []interface{}
-		for _, it := range items {
+		for pos, it := range items {
+			exprLit := exprLits[pos]
 			if it.col < 0 {
-				out = append(out, row[0].(int64) == exprLit)
+				switch it.col {
+				case -2:
+					out = append(out, row[1].(int64) < exprLit)
+				case -3:
+					out = append(out, exprLit <= row[0].(int64))
+				default:
+					out = append(out, row[0].(int64) == exprLit)
+				}
 			} else {
 				out = append(out, row[it.col])
 			}
@@ -241,7 +270,7 @@ func verifH_C05_select() {
 	var keys []int
 	var desc []bool
 	if nkeys > 0 {
-		verifAssume(selForm != 4 && selForm != 5) // duplicate / expression columns are not sort keys here
+		verifAssume(selForm != 4 && selForm != 5 && selForm != 99) // duplicate / expression columns are not sort keys here
 		for k := 0; k < nkeys; k++ {
 			pos := verifChoice(fmt.Sprintf("key%d", k), len(wantHdr))
 			for _, o := range keys {
